@@ -133,14 +133,18 @@ impl<'o> Cx<'o> {
         match vengine::guard(f) {
             Ok(v) => Some(v),
             Err(m) => {
-                self.bad = true;
-                if self.cur_n == 0 && m.contains("can_index_slice") && m.contains("ndarray") {
-                    self.obs.class("ndarray_debug_assertion_on_empty_sliced_array");
-                } else {
-                    self.obs.fail(format!("panic:{what}"), format!("after {:?}: panicked: {m}", self.executed));
-                }
+                self.panicked(what, &m);
                 None
             }
+        }
+    }
+    /// Record a panic of the call `what` (see [`Cx::call`]).
+    pub fn panicked(&mut self, what: &str, m: &str) {
+        self.bad = true;
+        if self.cur_n == 0 && m.contains("can_index_slice") && m.contains("ndarray") {
+            self.obs.class("ndarray_debug_assertion_on_empty_sliced_array");
+        } else {
+            self.obs.fail(format!("panic:{what}"), format!("after {:?}: panicked: {m}", self.executed));
         }
     }
     pub fn done(&mut self, op: &'static str) {
